@@ -54,6 +54,14 @@ func resolveCell(v ssa.Value) ssa.Value {
 		}
 		a, ok := resolveFree(u.X).(*ssa.Alloc)
 		if !ok {
+			/* A field of a local struct variable (possibly a copy of
+			another one): the value last put into that field. */
+			if fa, isFA := resolveFree(u.X).(*ssa.FieldAddr); isFA {
+				if w := localStructField(fa.X, fa.Field, 0); nil != w {
+					v = w
+					continue
+				}
+			}
 			return v
 		}
 		sts := reachingStores(u, a)
@@ -307,4 +315,58 @@ func reachingStoresAt(load ssa.Instruction, a *ssa.Alloc) []*ssa.Store {
 		return all
 	}
 	return out
+}
+
+// localStructField: base is the address of a local struct variable; returns
+// the one value stored into its field number f — directly, or through a
+// whole-struct copy from another local struct variable — or nil.
+func localStructField(base ssa.Value, f int, depth int) ssa.Value {
+	al, ok := resolveFree(base).(*ssa.Alloc)
+	if !ok || depth > 4 {
+		return nil
+	}
+	if _, isStruct := al.Type().Underlying().(*types.Pointer).Elem().Underlying().(*types.Struct); !isStruct {
+		return nil
+	}
+	var cands []ssa.Value
+	for _, fn := range withAnons(al.Parent()) {
+		bad := false
+		eachInstr(fn, func(i ssa.Instruction) {
+			st, ok := i.(*ssa.Store)
+			if !ok {
+				return
+			}
+			if fa, isFA := resolveFree(st.Addr).(*ssa.FieldAddr); isFA && resolveFree(fa.X) == ssa.Value(al) {
+				if fa.Field == f {
+					cands = append(cands, st.Val)
+				}
+				return
+			}
+			if resolveFree(st.Addr) != ssa.Value(al) {
+				return
+			}
+			/* Whole-struct store. */
+			switch x := st.Val.(type) {
+			case *ssa.Const:
+				/* zero value: nothing in the field yet */
+			case *ssa.UnOp:
+				if token.MUL == x.Op {
+					if w := localStructField(x.X, f, depth+1); nil != w {
+						cands = append(cands, w)
+						return
+					}
+				}
+				bad = true
+			default:
+				bad = true
+			}
+		})
+		if bad {
+			return nil
+		}
+	}
+	if 1 != len(cands) {
+		return nil
+	}
+	return cands[0]
 }
